@@ -145,6 +145,18 @@ func checkC11(c *Check) {
 				}
 				ok = ro
 				why = "all-namespaces pod accessor is used for a write"
+				// ... and only in code that does not serve one lease: a function that is handed a lease id must stay inside
+				// that lease's namespace (an all-namespaces read there returns other tenants' pods)
+				root := fn
+				for root.Parent() != nil {
+					root = root.Parent()
+				}
+				for _, p := range root.Params {
+					if ts := p.Type().String(); strings.HasSuffix(ts, "types.LeaseID") || strings.HasSuffix(ts, "types.DeploymentID") {
+						ok = false
+						why = "all-namespaces pod accessor in a function that serves one lease (" + paramName(p) + ")"
+					}
+				}
 			case !ok && m == "Manifests" && (strings.HasSuffix(s, "c.ns") || mnsArg(arg, l)):
 				// frozen exception: CRD objects live in the provider's configured namespace; their name is lidNS
 				ok = true
